@@ -78,6 +78,11 @@ def run_case(ffi, getfn, case, G):
         cells.append(c)
     args = [build_arg(ffi, d, cells, keep) for d in case["args"]]
     fn = getfn(case["fname"])
+    if case.get("prime"):
+        try:
+            fn(*[build_arg(ffi, d, cells, keep) for d in case["prime"]])
+        except Exception:
+            pass
     ffi.errno = case["errno"]
     try:
         r = fn(*args)
